@@ -254,3 +254,35 @@ def save_and_load_xdr(ctx, key, world, have_cell=True):
     loader = ctx.py.func(rel, "load_" + key)
     ret = mk(rel).run_fn(loader, filename="FILE", top=world.top)
     return (ret if isinstance(ret, Obj) else (made[-1] if made else None)), xf
+
+
+def save_and_load_dcd(ctx, world, have_cell=True):
+    """save_dcd followed by load_dcd on a model DCD file (sa/dcdmodel.py); -> the Trajectory object the loader builds"""
+    from . import dcdmodel as D
+    rel, cls = F.rel_cls("dcd")
+    root = W.new_root()
+    made = []
+    traj = model_trajectory(world, have_cell)
+    df = D.DcdFile()
+    ref = [None]
+
+    def mkfile(ev, call):
+        a = [ev.ex(x) for x in call.args]
+        kw = {k.arg: ev.ex(k.value) for k in call.keywords}
+        mode = a[1] if len(a) > 1 else kw.get("mode", "r")
+        ref[0] = D.file_object(ctx, df, mode, n_atoms=world.n_atoms)
+        return ref[0]
+    disk = Disk()
+
+    def mk(relx):
+        ts = evaluator(ctx, relx, disk, root, made)
+        ts.models = dict(ts.models, **D.models(df, ref))
+        ts.models["in_units_of"] = in_units_of
+        ts.models[cls] = mkfile
+        ts.models["os.fspath"] = lambda ev, c: ev.ex(c.args[0])
+        ts.module_env = dict(ts.module_env, **D.MODULE_ENV)
+        ts.module_env[cls] = Obj(distance_unit="angstroms")
+        return ts
+    mk(TRAJ).run_fn(ctx.py.func(TRAJ, "Trajectory.save_dcd"), self=traj, filename="FILE")
+    ret = mk(rel).run_fn(ctx.py.func(rel, "load_dcd"), filename="FILE", top=world.top)
+    return ret if isinstance(ret, Obj) else (made[-1] if made else None)
